@@ -134,17 +134,20 @@ static Str enc_hist(const std::vector<Op> &h) { Str e; for (size_t i = 0; i < h.
 
 // replays a history on a fresh machine; returns the state key, "" when not applicable
 static Str replay_hist(Ctx &ctx, Local &lc, const std::vector<Op> &h, Str *viol, int max_fail) {
-    Machine m; lc.replays++; int sig; SanWatch sw;
-    if ((sig = GUARD_ENTER()) != 0) { *viol = fmt("%s while executing the allocator sequence", signame(sig)); return ""; }
+    // the machine lives on the heap and is torn down INSIDE the guarded region: if the implementation has damaged the heap beyond the
+    // red zones, the C library notices when the backend's blocks are released - that abort must be charged to this very history
+    lc.replays++; int sig; SanWatch sw; Machine *mp = 0;
+    if ((sig = GUARD_ENTER()) != 0) { *viol = fmt("%s while executing the allocator sequence or releasing the backend's blocks afterwards (heap damaged?)", signame(sig)); return ""; }
+    mp = new Machine; Machine &m = *mp; Str k;
     for (size_t i = 0; i < h.size(); i++) {
         bool na; Str w = m.apply(h[i], &na);
-        if (na || m.nfail > max_fail) { GUARD_LEAVE(); return ""; }
+        if (na || m.nfail > max_fail) { delete mp; GUARD_LEAVE(); return ""; }
         if (w.empty()) w = m.verify();
-        if (!w.empty()) { if (i + 1 == h.size()) *viol = w + " (after " + h[i].str() + ")"; GUARD_LEAVE(); return ""; }
+        if (!w.empty()) { if (i + 1 == h.size()) *viol = w + " (after " + h[i].str() + ")"; delete mp; GUARD_LEAVE(); return ""; }
     }
-    Str k = m.key();
-    Machine *mp = &m; Str d = mp->drain(); if (!d.empty()) *viol = d;
-    GUARD_LEAVE(); (void)ctx;
+    k = m.key();
+    Str d = mp->drain(); if (!d.empty()) *viol = d;
+    delete mp; GUARD_LEAVE(); (void)ctx;
     if (sw.tripped()) *viol = "AddressSanitizer reported an invalid access";
     return k;
 }
@@ -189,12 +192,15 @@ void run(Ctx &ctx) {
         }
     }
     // uriTestMemoryManager on the completed manager, and with each backend malloc failing in turn (documented codes only)
-    if (ctx.worker == 0) {
-        Machine m; int rc = uriTestMemoryManager(&m.mm);
+    int tsig = 0;
+    if (ctx.worker == 0 && (tsig = GUARD_ENTER()) != 0) ctx.violation("", "test`0", fmt("%s in uriTestMemoryManager on a completed manager (or while releasing the backend's blocks afterwards)", signame(tsig)));
+    else if (ctx.worker == 0) {
+        Machine &m = *new Machine; int rc = uriTestMemoryManager(&m.mm);
         if (rc != URI_SUCCESS) ctx.violation("", "test`0", fmt("uriTestMemoryManager on a completed manager returned %d", rc));
         else if (!m.be.live.empty() || !m.be.errors.empty()) ctx.violation("", "test`0", "uriTestMemoryManager left backend blocks allocated or misused the backend");
         uint64_t n = m.be.n_malloc;
-        for (uint64_t k = 1; k <= n; k++) { Machine f; f.be.fail_idx.insert(k); int r = uriTestMemoryManager(&f.mm); lc.replays++; if (r != URI_ERROR_MEMORY_MANAGER_FAULTY && r != URI_SUCCESS) ctx.violation("", fmt("test`%llu", (unsigned long long)k), fmt("uriTestMemoryManager returned %d when backend malloc %llu failed", r, (unsigned long long)k)); if (!f.be.errors.empty()) ctx.violation("", fmt("test`%llu", (unsigned long long)k), f.be.errors[0]); }
+        for (uint64_t k = 1; k <= n; k++) { Machine &f = *new Machine; f.be.fail_idx.insert(k); int r = uriTestMemoryManager(&f.mm); lc.replays++; if (r != URI_ERROR_MEMORY_MANAGER_FAULTY && r != URI_SUCCESS) ctx.violation("", fmt("test`%llu", (unsigned long long)k), fmt("uriTestMemoryManager returned %d when backend malloc %llu failed", r, (unsigned long long)k)); if (!f.be.errors.empty()) ctx.violation("", fmt("test`%llu", (unsigned long long)k), f.be.errors[0]); delete &f; }
+        delete &m; GUARD_LEAVE();
     }
     ctx.st.count("states", lc.states); ctx.st.count("transitions", lc.transitions); ctx.st.count("evaluations", lc.replays); ctx.st.count("transitions_with_backend_failure", lc.backend_failures);
     for (auto &kv : lc.by_op) ctx.st.count("op_" + kv.first, kv.second);
@@ -204,7 +210,8 @@ void run(Ctx &ctx) {
 void replay(Ctx &ctx, const Str &enc) {
     Local lc; if (enc.compare(0, 3, "two") == 0) { Machine a, b; void *pa = a.mm.malloc(&a.mm, 24), *pb = b.mm.calloc(&b.mm, 3, 8); bool bad = !pa || !pb || a.be.live.size() != 1 || b.be.live.size() != 1; if (pa) a.mm.free(&a.mm, pa); if (pb) b.mm.free(&b.mm, pb);
         if (bad || !a.be.live.empty() || !b.be.live.empty() || !a.be.errors.empty() || !b.be.errors.empty()) ctx.violation("", enc, "two managers completed from different backends do not keep to their own backend"); return; }
-    if (enc.compare(0, 4, "test") == 0) { Machine m; int rc = uriTestMemoryManager(&m.mm); if (rc != URI_SUCCESS) ctx.violation("", enc, fmt("uriTestMemoryManager returned %d", rc)); return; }
+    if (enc.compare(0, 4, "test") == 0) { int sig; if ((sig = GUARD_ENTER()) != 0) { ctx.violation("", enc, fmt("%s in uriTestMemoryManager on a completed manager", signame(sig))); return; }
+        Machine *m = new Machine; int rc = uriTestMemoryManager(&m->mm); if (rc != URI_SUCCESS) ctx.violation("", enc, fmt("uriTestMemoryManager returned %d", rc)); delete m; GUARD_LEAVE(); return; }
     std::vector<Op> h; for (auto &s : split(enc, ';')) { Op o; if (parse_op(s, o)) h.push_back(o); } Str v; replay_hist(ctx, lc, h, &v, 99); if (!v.empty()) ctx.violation("", enc, v);
 }
 Str coverage(const Ctx &, const Stats &st) {
